@@ -690,6 +690,46 @@ func (env *SpecEnv) evalCall(x *ECall) (sval, error) {
 				return sval{t: fmt.Sprintf("(or (= (sbase %s) nil) (>= (pobj (sbase %s)) %s))", v.t, v.t, env.old.alloc), sort: "Bool"}, nil
 			}
 			return sval{}, fmt.Errorf("fresh of sort %s", v.sort)
+		case "istype", "unboxed":
+			// istype(x, T): the dynamic type of interface value x is the concrete type T.
+			// unboxed(x, T): the value of type T held by x (meaningful when istype(x, T)).
+			if len(x.Args) != 2 {
+				return sval{}, fmt.Errorf("%s takes (value, Type)", id.Name)
+			}
+			v, err := env.eval(x.Args[0])
+			if err != nil {
+				return sval{}, err
+			}
+			if v.sort != "Iface" {
+				return sval{}, fmt.Errorf("%s: value is not an interface", id.Name)
+			}
+			t, err := env.resolveType(x.Args[1])
+			if err != nil {
+				return sval{}, err
+			}
+			tid := f.ctx.useTypeID(f.eng, t)
+			if id.Name == "istype" {
+				return sval{t: fmt.Sprintf("(= (ityp %s) %d)", v.t, tid), sort: "Bool"}, nil
+			}
+			_, unbox := f.ctx.boxFns(f.ctx.sortOf(t))
+			return env.sv(fmt.Sprintf("(%s (ival %s))", unbox, v.t), t), nil
+		case "deref":
+			// deref(p): the value stored at pointer p (current heap)
+			if len(x.Args) != 1 {
+				return sval{}, fmt.Errorf("deref takes one argument")
+			}
+			v, err := env.eval(x.Args[0])
+			if err != nil {
+				return sval{}, err
+			}
+			if v.typ == nil {
+				return sval{}, fmt.Errorf("deref of untyped value")
+			}
+			pt, ok := v.typ.Underlying().(*types.Pointer)
+			if !ok {
+				return sval{}, fmt.Errorf("deref of non-pointer %s", v.typ)
+			}
+			return env.sv(f.load(env.state(), v.t, pt.Elem()), pt.Elem()), nil
 		case "same":
 			// same(a, b): identical values (for slices: same backing store,
 			// offset, length and capacity — not just equal contents).
@@ -891,6 +931,15 @@ func (env *SpecEnv) resolveType(e Expr) (types.Type, error) {
 				}
 			}
 		}
+	case *ECall:
+		// ptr(T): pointer to T
+		if id, ok := x.Fun.(*EIdent); ok && id.Name == "ptr" && len(x.Args) == 1 {
+			t, err := env.resolveType(x.Args[0])
+			if err != nil {
+				return nil, err
+			}
+			return types.NewPointer(t), nil
+		}
 	}
 	return nil, fmt.Errorf("cannot resolve type %s", e.exprString())
 }
@@ -982,6 +1031,14 @@ func (env *SpecEnv) applySpecFun(sf *SpecFun, argExprs []Expr) (sval, error) {
 	if sf.Body != nil {
 		// defined: expand in an environment with only the parameters
 		sub := &SpecEnv{f: f, vars: map[string]sval{}, st: env.st, old: env.old, pkg: env.pkg, inOld: env.inOld, reach: env.reach, pol: env.pol}
+		if sf.Pkg != "" {
+			// names in the body resolve in the declaring package
+			for _, p := range f.eng.Prog.SSA.AllPackages() {
+				if p.Pkg.Path() == sf.Pkg {
+					sub.pkg = p
+				}
+			}
+		}
 		for i, p := range sf.Params {
 			sub.vars[p.Name] = sval{t: args[i], sort: psorts[i]}
 		}
